@@ -25,7 +25,7 @@ func runC19(c *Ctx) {
 	// two client groups (ip marker): every key belongs to one client, in one group, so a refresh
 	// has to renew the entry of the right group while requests of the other group keep arriving
 	marker := "127.0.0.0,127.0.0.255,L\n127.9.0.0,127.9.255.255,M\n"
-	b, err := NewBed(c, "bed", BedOpts{Upstreams: []string{"pipe", "tcp", "dotp", "dot"}, IpMarker: marker, MemSize: 64 << 20, Listeners: []string{"udp", "tcp", "gnet", "http", "fasthttp"}, UdpRcvBuf: 8 << 20})
+	b, err := NewBed(c, "bed", BedOpts{Upstreams: []string{"pipe", "tcp", "dotp", "dot"}, IpMarker: marker, ECS: true, MemSize: 64 << 20, Listeners: []string{"udp", "tcp", "gnet", "http", "fasthttp"}, UdpRcvBuf: 8 << 20})
 	if err != nil {
 		c.startFailure(err, "c19")
 		return
@@ -35,7 +35,7 @@ func runC19(c *Ctx) {
 	seen := map[string]int{}
 	// each refresh outcome has its own upstream, so that a connection closed on purpose cannot take
 	// other keys' refreshes down with it (the transports would retry them: more upstream queries)
-	upOf := map[string]string{"rfok": "pipe", "rfclose": "tcp", "rfsilent": "dotp", "rftc": "dot", "rfshort": "pipe"}
+	upOf := map[string]string{"rfok": "pipe", "rfclose": "tcp", "rfsilent": "dotp", "rftc": "dot", "rfshort": "pipe", "rfrefused": "pipe", "rfsubnets": "pipe"}
 	hook := func(q *fakeup.QueryLog, d *fakeup.Directives) {
 		k := chKey(q.Name, q.Qtype, q.Qclass)
 		mu.Lock()
@@ -50,6 +50,11 @@ func runC19(c *Ctx) {
 			// a successful refresh whose records carry a smaller TTL than what is left of the old entry
 			d.Delay = 500
 			d.TTL = 2
+		case strings.Contains(q.Name, "rfrefused"):
+			d.Delay = 300
+			d.Kind, d.RCode = "rc", 5 // the refresh is answered REFUSED: not a successful refresh
+		case strings.Contains(q.Name, "rfsubnets"):
+			d.Delay = 1500
 		case strings.Contains(q.Name, "rfok"):
 			d.Delay = 1500
 		case strings.Contains(q.Name, "rflong"):
@@ -86,9 +91,14 @@ func runC19(c *Ctx) {
 	reps := c.N(1, 4)
 	for rep := 0; rep < reps; rep++ {
 		for _, n := range bursts {
-			for _, oc := range []string{"rfok", "rfclose", "rfsilent", "rftc", "rfshort"} {
+			for _, oc := range []string{"rfok", "rfclose", "rfsilent", "rftc", "rfshort", "rfrefused"} {
 				keys = append(keys, &key{name: fmt.Sprintf("ok-n2-ttl16-%s-b%dr%dx%d.%s.test.", oc, n, rep, c.Seed, upOf[oc]), burst: n, outcome: oc, ttl: 16, hitAges: []float64{12.3}})
 			}
+		}
+		// one question asked by clients of eight different /24 networks that share a client group (ECS is
+		// on: their upstream queries differ, their cache entry and its refresh do not)
+		for i := 0; i < 2; i++ {
+			keys = append(keys, &key{name: fmt.Sprintf("ok-n2-ttl16-rfsubnets-s%dr%dx%d.pipe.test.", i, rep, c.Seed), burst: 32, outcome: "rfsubnets", ttl: 16, hitAges: []float64{12.3}, group: "subnets"})
 		}
 		// a refresh that takes 4.5 s, and a second burst 3.5 s after the one that started it
 		for i := 0; i < 2; i++ {
@@ -137,6 +147,9 @@ func runC19(c *Ctx) {
 			} else {
 				time.Sleep(time.Duration(ki*130) * time.Millisecond) // stagger the bursts
 			}
+			if k.group == "subnets" {
+				k.localIP = "127.9.10.7"
+			}
 			k.first = h.query(b, "tcp", k.localIP, "", k.name, dns.TypeA, dns.ClassINET, "store", "")
 			if k.first.Err != "" || k.first.Serial == 0 {
 				return
@@ -155,7 +168,11 @@ func runC19(c *Ctx) {
 					bw.Add(1)
 					go func(i int) {
 						defer bw.Done()
-						r := h.query(b, listeners[(i+ki)%len(listeners)], k.localIP, "", k.name, dns.TypeA, dns.ClassINET, "burst", "")
+						ip := k.localIP
+						if k.group == "subnets" {
+							ip = fmt.Sprintf("127.9.%d.7", 10+i%8) // group M, eight /24s
+						}
+						r := h.query(b, listeners[(i+ki)%len(listeners)], ip, "", k.name, dns.TypeA, dns.ClassINET, "burst", "")
 						hm.Lock()
 						k.hits = append(k.hits, r)
 						hm.Unlock()
@@ -163,7 +180,7 @@ func runC19(c *Ctx) {
 				}
 				bw.Wait()
 			}
-			if k.outcome == "rflong" || k.group == "many" {
+			if k.outcome == "rflong" || k.group == "many" || k.group == "subnets" {
 				return
 			}
 			ages := []float64{13.0, 14.7, 15.4}
@@ -297,10 +314,10 @@ func runC19(c *Ctx) {
 				if endI == 0 { // never answered (silent / closed): the proxy waits for its 6 s prefetch timeout or the connection error
 					if k.outcome == "rfsilent" {
 						endI = fs[i].TRecv + int64(5500*time.Millisecond)
-					} else if k.outcome == "rflong" || k.outcome == "rfmany" || k.outcome == "rfok" || k.outcome == "rfshort" {
+					} else if k.outcome == "rflong" || k.outcome == "rfmany" || k.outcome == "rfok" || k.outcome == "rfshort" || k.outcome == "rfsubnets" || k.outcome == "rfrefused" {
 						// the scripted delay had not elapsed when the log was read: the refresh is in flight
 						// until the reply is sent (a little less, to stay on the safe side)
-						endI = fs[i].TRecv + map[string]int64{"rflong": 4400, "rfmany": 2900, "rfok": 1400, "rfshort": 400}[k.outcome]*int64(time.Millisecond)
+						endI = fs[i].TRecv + map[string]int64{"rflong": 4400, "rfmany": 2900, "rfok": 1400, "rfshort": 400, "rfsubnets": 1400, "rfrefused": 250}[k.outcome]*int64(time.Millisecond)
 					} else {
 						endI = fs[i].TRecv + int64(280*time.Millisecond) // the scripted close happens 300 ms after the query arrived
 					}
